@@ -101,7 +101,23 @@ def env_property(pid, tier, seed, only=None):
         extra_note = {"TSPBatch": {"states": rb.distinct, "violated": rb.violated, "coverage": rb.coverage()}}
         if rb.violated:
             print("MODEL-DRIFT C04: TSPBatch model violates %s (batch-global read not harmless in the MODEL)" % rb.violated)
-    viol = [v for r in results for v in r.violations]
+    roll_viol = []
+    if pid == "C02" and not only:
+        # code -> spec on generator instances: the real decoding loop with a uniform-random stub decoder
+        from harness import rollouts
+        from harness.props.common import validate_records
+        recs = [r for r in rollouts.records(tier, seed)]
+        live = [r for r in recs if not r["skipped"]]
+        fails, _, st_r, _ = validate_records("RolloutTrace", live, ["M_Mask", "M_Mono", "M_Bound", "End"], "c02roll")
+        extra_states += st_r
+        extra_note["rollouts"] = {"batches": len(live), "skipped": [r["env"] + ": " + r["note"] for r in recs if r["skipped"]][:6],
+                                  "sample": {k: live[0][k] for k in ("env", "B", "steps", "bound")} if live else {}}
+        for f in fails:
+            rec = live[f[0]]
+            roll_viol.append({"property": "C02", "env": rec["env"], "monitor": "rollout-" + f[1],
+                              "inst": {k: rec[k] for k in ("env", "B", "steps", "bound", "note")}, "actions": [],
+                              "detail": "iteration %s: minmask %s ndone %s" % (f[2], rec["minmask"][:40], rec["ndone"][:40])})
+    viol = [v for r in results for v in r.violations] + roll_viol
     for r in results:
         for d in r.drift[:5]:
             print("MODEL-DRIFT env=%s %s" % (r.env, json.dumps(d, default=str)[:300]))
